@@ -30,9 +30,9 @@ PAIRS = [(g, h) for i, g in enumerate(GROUPS) for h in GROUPS[i + 1:]]
 
 def plan(tier):
     if tier == 'quick':
-        return [(2, ('plain',), 'LWq', 3, False), (2, ('plain',), 'OEAVZ', 2, False), (1, ('plain',), 'RBWNX', 2, True), (2, ('plain', 'rainbow'), 'RBWN', 2, True),
+        return [(2, ('plain',), 'RWN', 3, False), (2, ('plain',), 'LWq', 3, False), (2, ('plain',), 'OEAVZ', 2, False), (1, ('plain',), 'RBWNX', 2, True), (2, ('plain', 'rainbow'), 'RBWN', 2, True),
                 (3, ('plain',), 'RWNT', 2, False), (3, ('rainbow',), 'BUD', 1, True), (2, ('plain',), 'UDXTZ', 2, False), (3, ('parsed',), 'RW', 2, True), (2, ('plain',), 'WN', 3, False), (2, ('plain',), 'RB', 3, False), (3, ('dup1', 'dup2'), 'RW', 1, False), (4, ('rs1', 'rs2'), 'RBW', 1, False), (2, ('wide', 'wide2'), 'RW', 1, False), (3, ('plain',), 'Wyq', 2, False), (4, ('pairs',), 'R', 0, False), (3, ('tri', 'trix', 'triw'), 'R', 0, False)]
-    return [(3, ('plain',), 'LWq', 3, False), (2, ('plain',), 'LQWIH', 3, False), (3, ('plain',), 'OEAVZ', 2, False), (2, ('plain',), 'IHJSKC', 2, True), (1, ('plain',), 'RBWNXZ', 3, True), (2, ('plain', 'rainbow'), 'RBWNX', 2, True), (2, ('plain',), 'RWN', 3, True),
+    return [(3, ('plain',), 'RWNI', 3, False), (3, ('plain',), 'LWq', 3, False), (2, ('plain',), 'LQWIH', 3, False), (3, ('plain',), 'OEAVZ', 2, False), (2, ('plain',), 'IHJSKC', 2, True), (1, ('plain',), 'RBWNXZ', 3, True), (2, ('plain', 'rainbow'), 'RBWNX', 2, True), (2, ('plain',), 'RWN', 3, True),
             (3, ('plain', 'rainbow'), 'RBWNT', 2, True), (3, ('plain',), 'RWN', 3, False), (2, ('plain',), 'UDXTZ', 2, True),
             (4, ('plain', 'rainbow'), 'RWN', 2, False), (3, ('parsed',), 'RBWN', 2, True), (4, ('parsed',), 'RW', 2, False), (3, ('dup1', 'dup2'), 'RW', 1, False), (4, ('rs1', 'rs2'), 'RBW', 2, False), (2, ('wide', 'wide2'), 'RW', 2, False), (3, ('wide',), 'RW', 1, False), (3, ('plain', 'rainbow'), 'WNyq', 2, False), (2, ('plain',), 'Wyq', 3, False), (5, ('pairs',), 'R', 0, False), (4, ('tri', 'trix', 'triw'), 'R', 0, False), (3, ('tri', 'trix', 'triw'), 'RW', 1, False)]
 
